@@ -528,7 +528,12 @@ class FuncVerifier:
         if sa.is_any or sb.is_any:
             if T.is_flat(sa) or T.is_flat(sb):
                 return box(a) == box(b)
-            raise EngineError('equality on Any at line %s' % getattr(node, 'lineno', '?'))
+            # values of unknown static type: the answer of == is an unconstrained function of the two values (no side
+            # effect, same answer for the same two values during the call -- as for PyEq)
+            if '__anyeq' not in self.E.pure_syms:
+                self.E.pure_syms['__anyeq'] = z3.Function('AnyEq', P.V, P.V, z3.BoolSort())
+            self.E.assumptions.add('== between values of unknown static type is an unconstrained pure function of the two values')
+            return self.E.pure_syms['__anyeq'](box(a), box(b))
         if sa.kind in ('int', 'bool', 'str', 'abs') or sb.kind in ('int', 'bool', 'str', 'abs'):
             if sa.kind in ('int', 'bool') and sb.kind in ('int', 'bool') and sa.kind != sb.kind:
                 return coerce(coerce(a, sa), INT).term == coerce(coerce(b, sb), INT).term
@@ -1580,10 +1585,13 @@ class FuncVerifier:
         if self.in_slice():
             from .slicing import slice_return
             return slice_return(self, s, st)
+        pre = st.copy() if (self.c is not None and getattr(self.c, 'site_returns', None)) else None
         if s.value is None:
             sv = SV(P.none, NONE)
         else:
             sv = self.ev(s.value, st, False)
+        from .calls import site_return_obligations
+        site_return_obligations(self, s, st, sv, pre)
         self.returns.append((st.copy(), sv, s))
         st.dead = True
         st.pc = z3.BoolVal(False)
